@@ -339,7 +339,35 @@ fn check_overlong(thorough: bool, rep: &mut Report) -> u64 {
                 }
             }
         }
-        if sk.entry >= 26 && !sk.big {
+        if sk.entry == 28 && !sk.big {
+            // msgSecurityParameters is a message layer of its own (an OCTET STRING holding the serialized USM SEQUENCE):
+            // bytes after that SEQUENCE inside the wrapper (all enclosing lengths adjusted) are bytes after a message
+            if let Some(wr) = nodes.iter().filter(|x| x.depth == 1 && x.tag == 0x04).next() {
+                if wr.hlen == 2 && nodes[0].hlen == 2 {
+                    for s in sfx.iter().filter(|s| s.len() <= 2) {
+                        if wr.len + s.len() >= 0x80 || nodes[0].len + s.len() >= 0x80 {
+                            continue;
+                        }
+                        let mut w = d[..wr.end()].to_vec();
+                        w.extend_from_slice(s);
+                        w.extend_from_slice(&d[wr.end()..]);
+                        w[wr.start + 1] = (wr.len + s.len()) as u8;
+                        w[nodes[0].start + 1] = (nodes[0].len + s.len()) as u8;
+                        n += 1;
+                        match guarded(|| msg_ok(sk.entry, &w)) {
+                            Ok(false) => {}
+                            Ok(true) => rep.violation(
+                                "trailing-bytes-accepted/inside-msgSecurityParameters",
+                                format!("{}: {} after the USM SEQUENCE inside msgSecurityParameters was accepted", sk.name, hex(s)),
+                                format!("{{\"kind\": \"msg\", \"entry\": {}, \"hex\": {}}}", sk.entry, jstr(&hex(&w))),
+                            ),
+                            Err(p) => rep.violation(&format!("overlong/panic/{}", crate::panic_class(&p)), format!("panic: {}", p), format!("{{\"kind\": \"msg\", \"entry\": {}, \"hex\": {}}}", sk.entry, jstr(&hex(&w)))),
+                        }
+                    }
+                }
+            }
+        }
+        if (sk.entry >= 26 || sk.entry == 23) && !sk.big {
             let mut w = d.clone();
             for s in sfx.iter().filter(|s| s.len() <= 2) {
                 w.truncate(d.len());
